@@ -129,6 +129,43 @@ def text_of(d, key, ref=None):
     return b.decode('latin-1') if b is not None else None
 
 
+def canon_struct(t, text_path):
+    """structural dump (harness field S*) up to what a round trip may change.  Text path (MIR_scan_string): labels are
+    names, renumbered per module in order of first occurrence; every integer literal is re-read as MIR_OP_INT with the
+    same bits; a non-empty string gets a final NUL if it lacks one (known finding, not generated).  Binary path:
+    nothing (labels travel by number)."""
+    if t is None or not text_path:
+        return t
+    out = []
+    labs = {}
+    for line in t.split('\n'):
+        w = line.split(' ')
+        if w[0] == 'module':
+            labs = {}
+        for i, x in enumerate(w):
+            if x.startswith('l:') and w[0] in ('insn', 'label', 'lref'):
+                if x not in labs:
+                    labs[x] = 'l#%d' % (len(labs) + 1)
+                w[i] = labs[x]
+            elif x.startswith('u:') and w[0] == 'insn':
+                w[i] = 'i:' + x[2:]
+            elif x.startswith('s:') and w[0] == 'insn' and len(x) > 2 and not x.endswith('00'):
+                w[i] = x + '00'
+        out.append(' '.join(w))
+    return '\n'.join(out)
+
+
+def first_diff(a, b):
+    """first differing line of two dumps, for the message"""
+    la, lb = (a or '').split('\n'), (b or '').split('\n')
+    for i in range(max(len(la), len(lb))):
+        x = la[i] if i < len(la) else '<end>'
+        y = lb[i] if i < len(lb) else '<end>'
+        if x != y:
+            return 'line %d: `%s` became `%s`' % (i + 1, x[:160], y[:160])
+    return 'no difference'
+
+
 LABEL_RE = re.compile(r'\bL(\d+)\b')
 
 
